@@ -140,8 +140,10 @@ pub fn roundtrip(e: &Event) -> (String, Rt) {
     let rt = match serde_json::from_str::<Event>(&js) {
         Ok(back) if &back == e => Rt::Exact,
         Ok(back) => {
-            let strip = |x: &Event| serde_json::to_value(x).ok().map(|mut v| { if let Some(o) = v.as_object_mut() { o.remove("time"); } v });
-            if strip(&back) == strip(e) { Rt::TimeOnly } else { Rt::Fail(format!("parsed back as {}", serde_json::to_string(&back).unwrap_or_default())) }
+            // the fields are private: compare the derived Debug texts with the leading `time: <f64>, ` cut out
+            // (NOT the JSON values: a custom field named like a known one serialises to the same JSON as the known field)
+            let strip = |x: &Event| { let d = format!("{:?}", x); match (d.find("time: "), d.find(", ")) { (Some(a), Some(b)) if a < b => format!("{}{}", &d[..a], &d[b + 2..]), _ => d } };
+            if strip(&back) == strip(e) { Rt::TimeOnly } else { Rt::Fail(format!("parsed back as {:?}", back)) }
         }
         Err(err) => Rt::Fail(format!("from_str error: {}", err)),
     };
